@@ -19,6 +19,7 @@ use crate::{
 };
 
 fn baseline(bytes: &[u8]) -> Result<Trace, String> {
+    let _g = crate::engine::watch::bytes_guard(bytes);
     match guarded(|| rosu_map::from_bytes::<Trace>(bytes)) {
         Ok(Ok(t)) => Ok(t),
         Ok(Err(e)) => Err(format!("Err({:?})", e.kind())),
@@ -40,6 +41,7 @@ fn classify(bytes: &[u8], first_chunk: usize) -> &'static str {
 }
 
 fn run_cuts(bytes: &[u8], cuts: &[usize], interrupts: &[usize]) -> Result<Trace, String> {
+    let _g = crate::engine::watch::bytes_guard(bytes);
     match guarded(|| Trace::decode(CutReader::new(bytes, cuts, interrupts))) {
         Ok(Ok(t)) => Ok(t),
         Ok(Err(e)) => Err(format!("Err({:?})", e.kind())),
@@ -107,6 +109,7 @@ fn level_a(tier: Tier, acc_out: &mut Acc) -> Value {
                 |ch| {
                     let choices_before = ch.trace.len();
                     let _ = choices_before;
+                    let _g = crate::engine::watch::bytes_guard(&bytes);
                     let r = guarded(|| Trace::decode(SchedReader::new(&bytes, ch, interrupts)));
                     match r {
                         Ok(Ok(t)) => Ok(t),
@@ -237,6 +240,7 @@ fn level_c(acc_out: &mut Acc) -> Value {
     let _ = std::fs::create_dir_all(&dir);
     let a = par_items(&pool, |(name, bytes), acc| {
         let base = baseline(bytes);
+        let _gc = crate::engine::watch::bytes_guard(bytes);
         let base_map = guarded(|| rosu_map::from_bytes::<Beatmap>(bytes).map(|m| format!("{m:?}")).map_err(|e| format!("{:?}", e.kind())));
         let mut differ = |what: String, acc: &mut Acc| {
             acc.violation(Violation::new(
@@ -250,6 +254,7 @@ fn level_c(acc_out: &mut Acc) -> Value {
             acc.evals += 1;
             acc.transitions += cuts.len() as u64 + 1;
             let got = run_cuts(bytes, &cuts, &[]);
+            let _gc = crate::engine::watch::bytes_guard(bytes);
             if got != base {
                 acc.violation(Violation::new(
                     classify(bytes, size),
